@@ -266,7 +266,7 @@ def schurN (c c' : Nat) : ℚ := sumTo w.size fun e => D.get c e * (1 / w.getD e
 def redRhsN (g f : Nat → ℚ) (c : Nat) : ℚ := f c - sumTo w.size fun e => D.get c e * (1 / w.getD e 0) * g e
 
 theorem red_entry (c c' : Nat) (hc : c ≤ D.size) (hc' : c' ≤ D.size) :
-    redEntry (assembleFull w D k) w.size c c'
+    redEntry (assembleFull w D k) (assembleFull w D k) w.size c c'
       = if c < D.size then (if c' < D.size then schurN w D c c' else if c = k then -1 else 0)
         else (if c' < D.size ∧ c' = k then 1 else 0) := by
   unfold redEntry
@@ -288,7 +288,7 @@ theorem red_entry (c c' : Nat) (hc : c ≤ D.size) (hc' : c' ≤ D.size) :
     intro e he; rw [A_low_last w D k e he]; ring
 
 theorem redRhs_entry (g f : Nat → ℚ) (r : ℚ) (c : Nat) (hc : c ≤ D.size) :
-    redRhsEntry (assembleFull w D k) (tabV (w.size + D.size + 1) (cat3 w.size D.size g f r)) w.size c
+    redRhsEntry (assembleFull w D k) (assembleFull w D k) (tabV (w.size + D.size + 1) (cat3 w.size D.size g f r)) w.size c
       = if c < D.size then redRhsN w D g f c else r := by
   obtain ⟨c1, c2, c3⟩ := cat3_getD w.size D.size g f r
   unfold redRhsEntry
@@ -331,19 +331,19 @@ theorem redRhs_eq (g f : Nat → ℚ) (c : Fin D.size) :
 
 /-- **`eliminate_flux` is the abstract Schur-complement system** -/
 theorem reduced_iff (hk : k < D.size) (p g f : Nat → ℚ) (lam r : ℚ) :
-    (let E := eliminateFlux (assembleFull w D k) (tabV (w.size + D.size + 1) (cat3 w.size D.size g f r)) w.size
+    (let E := eliminateFlux (assembleFull w D k) (assembleFull w D k) (tabV (w.size + D.size + 1) (cat3 w.size D.size g f r)) w.size
      mulVec E.1 (tabV (D.size + 1) (cat2 D.size p lam)) = E.2.1)
       ↔ Saddle.Reduced (wF w) (DF w D) ⟨k, hk⟩ (fun e => g e.val) (fun c => f c.val) r (fun c => p c.val) lam := by
   simp only [eliminateFlux, A_size, show w.size + D.size + 1 - w.size = D.size + 1 by omega]
   rw [vec_eq_iff _ _ (D.size + 1) (by simp [mulVec_eq]) (by simp)]
   have row : ∀ c, c ≤ D.size →
-      (mulVec (tab (D.size + 1) (D.size + 1) (redEntry (assembleFull w D k) w.size))
+      (mulVec (tab (D.size + 1) (D.size + 1) (redEntry (assembleFull w D k) (assembleFull w D k) w.size))
         (tabV (D.size + 1) (cat2 D.size p lam))).getD c 0
       = if c < D.size then sumTo D.size (fun c' => schurN w D c c' * p c') - (if c = k then lam else 0) else p k := by
     intro c hc
     rw [mulVec_eq, getD_tabV]
     simp only [size_tab, size_tabV, show c < D.size + 1 by omega, if_true]
-    rw [sumTo_congr (g := fun j => redEntry (assembleFull w D k) w.size c j * cat2 D.size p lam j), sum_cat2]
+    rw [sumTo_congr (g := fun j => redEntry (assembleFull w D k) (assembleFull w D k) w.size c j * cat2 D.size p lam j), sum_cat2]
     · by_cases h1 : c < D.size
       · simp only [h1, if_true]
         rw [red_entry w D k c D.size hc (Nat.le_refl _)]
@@ -418,7 +418,7 @@ theorem sumTo_skip (F : Nat → ℚ) : ∀ (n k : Nat), k ≤ n →
 
 /-- `compute_flux_update` is the abstract `fluxUpdate` -/
 theorem flux_entry (g f p : Nat → ℚ) (r lam : ℚ) (e : Nat) (he : e < w.size) :
-    fluxEntry (assembleFull w D k) (tabV (w.size + D.size + 1) (cat3 w.size D.size g f r))
+    fluxEntry (assembleFull w D k) (assembleFull w D k) (tabV (w.size + D.size + 1) (cat3 w.size D.size g f r))
         (tabV (D.size + 1) (cat2 D.size p lam)) w.size e
       = Saddle.fluxUpdate (wF w) (DF w D) (fun e => g e.val) (fun c => p c.val) ⟨e, he⟩ := by
   obtain ⟨c1, _, _⟩ := cat3_getD w.size D.size g f r
@@ -437,10 +437,10 @@ theorem wF_ne (hw : ∀ e, e < w.size → w.getD e 0 ≠ 0) : ∀ e, wF w e ≠ 
 builds, the vector the model returns (`[W⁻¹(g + Dᵀp) | p | lam]`) solves the assembled full system -/
 theorem fluxReduced_sound (hw : ∀ e, e < w.size → w.getD e 0 ≠ 0) (hk : k < D.size)
     (p g f : Nat → ℚ) (lam r : ℚ)
-    (h : let E := eliminateFlux (assembleFull w D k) (tabV (w.size + D.size + 1) (cat3 w.size D.size g f r)) w.size
+    (h : let E := eliminateFlux (assembleFull w D k) (assembleFull w D k) (tabV (w.size + D.size + 1) (cat3 w.size D.size g f r)) w.size
          mulVec E.1 (tabV (D.size + 1) (cat2 D.size p lam)) = E.2.1) :
     mulVec (assembleFull w D k) (tabV (w.size + D.size + 1) (cat3 w.size D.size
-        (fluxEntry (assembleFull w D k) (tabV (w.size + D.size + 1) (cat3 w.size D.size g f r))
+        (fluxEntry (assembleFull w D k) (assembleFull w D k) (tabV (w.size + D.size + 1) (cat3 w.size D.size g f r))
           (tabV (D.size + 1) (cat2 D.size p lam)) w.size) p lam))
       = tabV (w.size + D.size + 1) (cat3 w.size D.size g f r) := by
   rw [full_iff w D k hk]
@@ -466,7 +466,7 @@ theorem scatterN_up (k : Nat) (y : Nat → ℚ) (j : Nat) : scatterN k y (Saddle
 
 /-- rows of the fully reduced (pure pressure) system the model builds -/
 theorem pinned_rows (hk : k < D.size) (g f y : Nat → ℚ) (r : ℚ) :
-    (let E := eliminateFlux (assembleFull w D k) (tabV (w.size + D.size + 1) (cat3 w.size D.size g f r)) w.size
+    (let E := eliminateFlux (assembleFull w D k) (assembleFull w D k) (tabV (w.size + D.size + 1) (cat3 w.size D.size g f r)) w.size
      mulVec (dropRowCol E.1 k) (tabV (D.size - 1) y) = dropVec E.2.1 k)
       ↔ ∀ i, i < D.size - 1 →
           sumTo (D.size - 1) (fun j => schurN w D (Saddle.up k i) (Saddle.up k j) * y j)
@@ -494,10 +494,10 @@ solves the pure-pressure system the model builds, the vector the model returns
 theorem pressure_sound (hw : ∀ e, e < w.size → w.getD e 0 ≠ 0) (hk : k < D.size)
     (hD : ∀ e, e < w.size → sumTo D.size (fun c => D.get c e) = 0)
     (g f y : Nat → ℚ) (hf : sumTo D.size f = 0)
-    (h : let E := eliminateFlux (assembleFull w D k) (tabV (w.size + D.size + 1) (cat3 w.size D.size g f 0)) w.size
+    (h : let E := eliminateFlux (assembleFull w D k) (assembleFull w D k) (tabV (w.size + D.size + 1) (cat3 w.size D.size g f 0)) w.size
          mulVec (dropRowCol E.1 k) (tabV (D.size - 1) y) = dropVec E.2.1 k) :
     mulVec (assembleFull w D k) (tabV (w.size + D.size + 1) (cat3 w.size D.size
-        (fluxEntry (assembleFull w D k) (tabV (w.size + D.size + 1) (cat3 w.size D.size g f 0))
+        (fluxEntry (assembleFull w D k) (assembleFull w D k) (tabV (w.size + D.size + 1) (cat3 w.size D.size g f 0))
           (tabV (D.size + 1) (cat2 D.size (scatterN k y) 0)) w.size) (scatterN k y) 0))
       = tabV (w.size + D.size + 1) (cat3 w.size D.size g f 0) := by
   rw [full_iff w D k hk]
@@ -589,8 +589,8 @@ theorem append_cat3 (a y : Vec) (nf nc : Nat) (ha : a.size = nf) (hy : y.size = 
 built by `eliminateFlux`, the returned vector `fluxUpdateV … ++ y` solves the assembled full system. -/
 theorem fluxReduced_branch_sound (hw : ∀ e, e < w.size → w.getD e 0 ≠ 0) (hk : k < D.size)
     (rhs y : Vec) (hr : rhs.size = w.size + D.size + 1) (hy : y.size = D.size + 1)
-    (h : mulVec (eliminateFlux (assembleFull w D k) rhs w.size).1 y = (eliminateFlux (assembleFull w D k) rhs w.size).2.1) :
-    mulVec (assembleFull w D k) (fluxUpdateV (assembleFull w D k) rhs y w.size ++ y) = rhs := by
+    (h : mulVec (eliminateFlux (assembleFull w D k) (assembleFull w D k) rhs w.size).1 y = (eliminateFlux (assembleFull w D k) (assembleFull w D k) rhs w.size).2.1) :
+    mulVec (assembleFull w D k) (fluxUpdateV (assembleFull w D k) (assembleFull w D k) rhs y w.size ++ y) = rhs := by
   have e1 := vec_cat3 rhs w.size D.size hr
   have e2 := vec_cat2 y D.size hy
   rw [append_cat3 _ y w.size D.size (by simp [fluxUpdateV]) hy]
@@ -625,11 +625,11 @@ theorem pressure_branch_sound (hw : ∀ e, e < w.size → w.getD e 0 ≠ 0) (hk 
     (hD : ∀ e, e < w.size → sumTo D.size (fun c => D.get c e) = 0)
     (rhs y : Vec) (hr : rhs.size = w.size + D.size + 1)
     (hf : sumTo D.size (fun c => rhs.getD (w.size + c) 0) = 0) (hr0 : rhs.getD (w.size + D.size) 0 = 0)
-    (h : mulVec (dropRowCol (eliminateFlux (assembleFull w D k) rhs w.size).1 k) y
-          = dropVec (eliminateFlux (assembleFull w D k) rhs w.size).2.1 k)
+    (h : mulVec (dropRowCol (eliminateFlux (assembleFull w D k) (assembleFull w D k) rhs w.size).1 k) y
+          = dropVec (eliminateFlux (assembleFull w D k) (assembleFull w D k) rhs w.size).2.1 k)
     (hy : y.size = D.size - 1) :
     mulVec (assembleFull w D k)
-        (fluxUpdateV (assembleFull w D k) rhs (scatter y k D.size) w.size ++ scatter y k D.size) = rhs := by
+        (fluxUpdateV (assembleFull w D k) (assembleFull w D k) rhs (scatter y k D.size) w.size ++ scatter y k D.size) = rhs := by
   have e1 := vec_cat3 rhs w.size D.size hr
   rw [hr0] at e1
   have e2 : y = tabV (D.size - 1) (fun i => y.getD i 0) := by
@@ -654,41 +654,51 @@ theorem pressure_branch_sound (hw : ∀ e, e < w.size → w.getD e 0 ≠ 0) (hk 
     · simp only [hi1, hi2, if_false]
       rw [hs _ (Nat.le_refl _)]; unfold cat2; rw [if_neg (Nat.lt_irrefl _)]
 
-/-- contract of the inner solver (the real back-ends, and the model's exact Gauss–Jordan, are parameters) -/
-def InnerSolveCorrect : Prop :=
-  ∀ (M : Mat) (b y : Vec), solveLin M b = some y → mulVec M y = b ∧ y.size = M.size
+/-- the checked inner solve only returns vectors that solve the system it was given -/
+theorem solveChecked_sound {M : Mat} {b y : Vec} (h : solveChecked M b = some y) : mulVec M y = b ∧ y.size = M.size := by
+  unfold solveChecked at h
+  cases hs : solveLin M b with
+  | none => rw [hs] at h; cases h
+  | some z =>
+    rw [hs] at h
+    simp only at h
+    split at h
+    · rename_i hc
+      cases h
+      exact ⟨hc.2, hc.1⟩
+    · cases h
 
 /-- **what the driver computes solves the original full system**: for every formulation, if the model's
-`linearSolve` returns `x` (inner solves correct; for the pressure branch: `1ᵀD = 0`, zero-mean source, zero last
+`linearSolve` returns `x` (unconditionally in the inner solver, whose result the model checks; for the pressure branch: `1ᵀD = 0`, zero-mean source, zero last
 right-hand-side entry) then `A x = rhs` for the assembled block matrix `A`. -/
-theorem linearSolve_sound (hinner : InnerSolveCorrect) (form : Form)
+theorem linearSolve_sound (form : Form)
     (hw : ∀ e, e < w.size → w.getD e 0 ≠ 0) (hk : k < D.size)
     (hD : ∀ e, e < w.size → sumTo D.size (fun c => D.get c e) = 0)
     (rhs x : Vec) (hr : rhs.size = w.size + D.size + 1)
     (hf : sumTo D.size (fun c => rhs.getD (w.size + c) 0) = 0) (hr0 : rhs.getD (w.size + D.size) 0 = 0)
-    (h : linearSolve form (assembleFull w D k) rhs w.size k none = .ok x) :
+    (h : linearSolve form (assembleFull w D k) (assembleFull w D k) rhs w.size k none = .ok x) :
     mulVec (assembleFull w D k) x = rhs := by
   unfold linearSolve at h
   cases form with
   | full =>
     simp only at h
-    cases hs : solveLin (assembleFull w D k) rhs with
+    cases hs : solveChecked (assembleFull w D k) rhs with
     | none => rw [hs] at h; cases h
-    | some y => rw [hs] at h; cases h; exact (hinner _ _ _ hs).1
+    | some y => rw [hs] at h; cases h; exact (solveChecked_sound hs).1
   | fluxReduced =>
     simp only at h
-    cases hs : solveLin (eliminateFlux (assembleFull w D k) rhs w.size).1
-        (eliminateFlux (assembleFull w D k) rhs w.size).2.1 with
+    cases hs : solveChecked (eliminateFlux (assembleFull w D k) (assembleFull w D k) rhs w.size).1
+        (eliminateFlux (assembleFull w D k) (assembleFull w D k) rhs w.size).2.1 with
     | none => rw [hs] at h; cases h
     | some y =>
       rw [hs] at h; cases h
-      obtain ⟨h1, h2⟩ := hinner _ _ _ hs
+      obtain ⟨h1, h2⟩ := solveChecked_sound hs
       apply fluxReduced_branch_sound w D k hw hk rhs y hr _ h1
       rw [h2]; simp [eliminateFlux, A_size]; omega
   | pressure =>
     simp only [Bool.false_eq_true, if_false] at h
-    have hlast : (eliminateFlux (assembleFull w D k) rhs w.size).2.1.getD
-        ((eliminateFlux (assembleFull w D k) rhs w.size).1.size - 1) 0 = 0 := by
+    have hlast : (eliminateFlux (assembleFull w D k) (assembleFull w D k) rhs w.size).2.1.getD
+        ((eliminateFlux (assembleFull w D k) (assembleFull w D k) rhs w.size).1.size - 1) 0 = 0 := by
       have e1 := vec_cat3 rhs w.size D.size hr
       simp only [eliminateFlux, A_size, size_tab, show w.size + D.size + 1 - w.size = D.size + 1 by omega,
         Nat.add_sub_cancel]
@@ -699,13 +709,13 @@ theorem linearSolve_sound (hinner : InnerSolveCorrect) (form : Form)
     simp only [hlast] at h
     rw [if_neg (by norm_num)] at h
     simp only at h
-    cases hs : solveLin (dropRowCol (eliminateFlux (assembleFull w D k) rhs w.size).1 k)
-        (dropVec (eliminateFlux (assembleFull w D k) rhs w.size).2.1 k) with
+    cases hs : solveChecked (dropRowCol (eliminateFlux (assembleFull w D k) (assembleFull w D k) rhs w.size).1 k)
+        (dropVec (eliminateFlux (assembleFull w D k) (assembleFull w D k) rhs w.size).2.1 k) with
     | none => rw [hs] at h; cases h
     | some y =>
       rw [hs] at h; cases h
-      obtain ⟨h1, h2⟩ := hinner _ _ _ hs
-      have hsz : (eliminateFlux (assembleFull w D k) rhs w.size).1.size - 1 = D.size := by
+      obtain ⟨h1, h2⟩ := solveChecked_sound hs
+      have hsz : (eliminateFlux (assembleFull w D k) (assembleFull w D k) rhs w.size).1.size - 1 = D.size := by
         simp [eliminateFlux, A_size]; omega
       rw [hsz]
       apply pressure_branch_sound w D k hw hk hD rhs y hr hf hr0 h1
